@@ -158,49 +158,129 @@ def sany(module_path):
 
 
 # --------------------------------------------------------------------------------------------- Go harness
-def stage_internal():
-    """Copy /repo/internal/{maplike,seq,pipe} under the module path they declare (github.com/fogfish/golem)
-    so they compile; internal/pipe becomes `purepipe` (its package name stays `pipe`)."""
-    root = os.path.join(STAGE, "golem")
-    shutil.rmtree(root, ignore_errors=True)
-    os.makedirs(root)
-    with open(os.path.join(root, "go.mod"), "w") as f:
-        f.write("module github.com/fogfish/golem\n\ngo 1.22\n")
-    for src, dst in (("maplike", "maplike"), ("seq", "seq"), ("pipe", "purepipe")):
-        s = os.path.join(REPO, "internal", src)
-        if os.path.isdir(s):
-            shutil.copytree(s, os.path.join(root, dst),
-                            ignore=shutil.ignore_patterns("*_test.go"))
-    return root
+import fcntl, contextlib
+
+GOMOD = """module verifharness
+
+go 1.26
+
+require (
+	github.com/fogfish/golem v0.0.0
+	github.com/fogfish/golem/duct v0.0.0
+	github.com/fogfish/golem/hseq v1.3.0
+	github.com/fogfish/golem/optics v0.0.0
+	github.com/fogfish/golem/pipe/v2 v2.0.0
+	github.com/fogfish/golem/pure v0.10.1
+	github.com/fogfish/golem/trait v0.0.0
+	pgregory.net/rapid v1.3.0
+)
+
+replace (
+	github.com/fogfish/golem => ./.stage/golem
+	github.com/fogfish/golem/duct => %(repo)s/duct
+	github.com/fogfish/golem/hseq => %(repo)s/hseq
+	github.com/fogfish/golem/optics => %(repo)s/optics
+	github.com/fogfish/golem/pipe/v2 => %(repo)s/pipe
+	github.com/fogfish/golem/pure => %(repo)s/pure
+	github.com/fogfish/golem/trait => %(repo)s/trait
+)
+"""
+
+
+def workdir():
+    """The harness is built in a work copy under .build/ (one per repository path), so /verif/harness holds
+    sources only and a scratch copy of the repository (VERIF_REPO=...) can be checked side by side."""
+    key = "default" if REPO == "/repo" else "r" + hashlib.sha1(REPO.encode()).hexdigest()[:8]
+    return os.path.join(BUILD, "h_" + key)
+
+
+@contextlib.contextmanager
+def build_lock():
+    os.makedirs(BUILD, exist_ok=True)
+    with open(os.path.join(BUILD, ".lock_" + os.path.basename(workdir())), "w") as lf:
+        fcntl.flock(lf, fcntl.LOCK_EX)
+        try:
+            yield
+        finally:
+            fcntl.flock(lf, fcntl.LOCK_UN)
+
+
+def _sync_tree(src, dst, ignore=None):
+    """Make dst an exact copy of src (files rewritten only when their content differs: keeps go's cache warm)."""
+    os.makedirs(dst, exist_ok=True)
+    names = set(os.listdir(src))
+    if ignore:
+        names -= set(ignore(src, list(names)))
+    for n in os.listdir(dst):
+        if n not in names and n not in (".stage", "go.mod", "go.sum", "bin", "gen"):
+            q = os.path.join(dst, n)
+            shutil.rmtree(q) if os.path.isdir(q) else os.remove(q)
+    for n in names:
+        a, b = os.path.join(src, n), os.path.join(dst, n)
+        if os.path.isdir(a):
+            _sync_tree(a, b, ignore)
+        else:
+            data = open(a, "rb").read()
+            if not os.path.exists(b) or open(b, "rb").read() != data:
+                with open(b, "wb") as f:
+                    f.write(data)
+
+
+def _write_if_changed(path, text):
+    if not os.path.exists(path) or open(path).read() != text:
+        os.makedirs(os.path.dirname(path), exist_ok=True)
+        with open(path, "w") as f:
+            f.write(text)
 
 
 def prepare_harness():
-    """go.sum is rebuilt from the repository's own go.sum files (offline)."""
-    stage_internal()
+    """(Re)creates the work copy: harness sources, go.mod pointing at REPO, go.sum from the repository's own
+    go.sum files, and /repo/internal/{maplike,seq,pipe} staged under the module path they declare
+    (github.com/fogfish/golem; internal/pipe becomes `purepipe`, its package name stays `pipe`).
+    Callers hold build_lock()."""
+    w = workdir()
+    _sync_tree(HARNESS, w, ignore=shutil.ignore_patterns("go.mod", "go.sum", "gen"))
+    _write_if_changed(os.path.join(w, "go.mod"), GOMOD % {"repo": REPO})
     sums = set()
-    for p in glob.glob(os.path.join(REPO, "*", "go.sum")) + glob.glob(os.path.join(VERIF, "harness", "go.sum.extra")):
+    for p in glob.glob(os.path.join(REPO, "*", "go.sum")) + glob.glob(os.path.join(HARNESS, "go.sum.extra")):
         with open(p) as f:
             sums.update(l for l in f.read().splitlines() if l.strip())
-    with open(os.path.join(HARNESS, "go.sum"), "w") as f:
-        f.write("\n".join(sorted(sums)) + "\n")
+    _write_if_changed(os.path.join(w, "go.sum"), "\n".join(sorted(sums)) + "\n")
+    root = os.path.join(w, ".stage", "golem")
+    _write_if_changed(os.path.join(root, "go.mod"), "module github.com/fogfish/golem\n\ngo 1.22\n")
+    for src, dst in (("maplike", "maplike"), ("seq", "seq"), ("pipe", "purepipe")):
+        sdir = os.path.join(REPO, "internal", src)
+        if os.path.isdir(sdir):
+            _sync_tree(sdir, os.path.join(root, dst), ignore=shutil.ignore_patterns("*_test.go"))
+    return w
 
 
-def go_build_test(pkg, out_name, tags="verif", race=False, timeout=600, extra_env=None):
-    """go test -c for ./<pkg> of the harness module; returns path of the test binary (under .build)."""
-    os.makedirs(BUILD, exist_ok=True)
-    out = os.path.join(BUILD, out_name)
-    cmd = [GO, "test", "-c", "-vet=off", "-tags", tags, "-o", out]
-    if race:
-        cmd.append("-race")
-    cmd.append("./" + pkg)
-    e = dict(GOENV)
-    if extra_env:
-        e.update(extra_env)
-    p = subprocess.run(cmd, cwd=HARNESS, env=e, stdout=subprocess.PIPE, stderr=subprocess.STDOUT, text=True,
-                       timeout=timeout)
-    if p.returncode != 0:
-        raise Infra("go build of harness package %s failed:\n%s" % (pkg, p.stdout[-4000:]))
-    return out
+def gen_dir(pkg):
+    """Directory (inside the work copy) for Go sources generated by a check: package ./gen/<pkg>."""
+    d = os.path.join(workdir(), "gen", pkg)
+    os.makedirs(d, exist_ok=True)
+    return d
+
+
+def go_build_test(pkg, out_name=None, tags="verif", race=False, timeout=900, extra_env=None):
+    """Rebuilds the work copy from /repo's current tree and compiles the test binary of ./<pkg>.
+    Returns the path of the binary (under .build/h_*/bin)."""
+    with build_lock():
+        w = prepare_harness()
+        os.makedirs(os.path.join(w, "bin"), exist_ok=True)
+        out = os.path.join(w, "bin", (out_name or pkg.replace("/", "_") + ".test") + ("-race" if race else ""))
+        cmd = [GO, "test", "-c", "-vet=off", "-tags", tags, "-o", out]
+        if race:
+            cmd.append("-race")
+        cmd.append("./" + pkg)
+        e = dict(GOENV)
+        if extra_env:
+            e.update(extra_env)
+        p = subprocess.run(cmd, cwd=w, env=e, stdout=subprocess.PIPE, stderr=subprocess.STDOUT, text=True,
+                           timeout=timeout)
+        if p.returncode != 0:
+            raise Infra("go build of harness package %s failed:\n%s" % (pkg, p.stdout[-4000:]))
+        return out
 
 
 def run_bin(binpath, args=(), env=None, timeout=600, cwd=None):
@@ -208,7 +288,7 @@ def run_bin(binpath, args=(), env=None, timeout=600, cwd=None):
     if env:
         e.update({k: str(v) for k, v in env.items()})
     try:
-        p = subprocess.run([binpath] + list(args), cwd=cwd or HARNESS, env=e, stdout=subprocess.PIPE,
+        p = subprocess.run([binpath] + list(args), cwd=cwd or workdir(), env=e, stdout=subprocess.PIPE,
                            stderr=subprocess.PIPE, text=True, errors="replace", timeout=timeout)
     except subprocess.TimeoutExpired:
         raise Infra("harness binary timeout: %s" % binpath)
